@@ -419,3 +419,37 @@ def opensystem_dispatch(cx, theory, td, secular):
     cx.prove("basis_restored", RT.get_current_basis() == 0 and agg.HamOp.get_current_basis() == 0
              and agg.HamOp.is_basis_protected is False)
     cx.prove_eq("H_untouched", agg.HamOp._data, H)
+
+
+@harness("C01", "operator_form_after_transform",
+         quick=[dict(td=False), dict(td=True)], thorough=[dict(td=False), dict(td=True), dict(td=True, nb=2)],
+         functions=[F_RED + ":RedfieldRelaxationTensor.transform", F_TDR + ":TDRedfieldRelaxationTensor.transform",
+                    F_RED + ":RedfieldRelaxationTensor.convert_2_tensor",
+                    F_TDR + ":TDRedfieldRelaxationTensor.convert_2_tensor"],
+         bound="N=2, 1-2 baths: a Redfield tensor born in operator form (time-independent and time-dependent), "
+               "transformed by an arbitrary rotation while still in operator form and then assembled: the generator "
+               "obeys both identities at every time index",
+         out="N>=3")
+def operator_form_after_transform(cx, td, nb=1):
+    from quantarhei.qm import RedfieldRelaxationTensor, TDRedfieldRelaxationTensor
+    N = 2
+    ham, sbi, time = build_sbi(cx, N, nb, Nt=4)
+    set_symmetric_hamiltonian(cx, ham)
+    set_symmetric_K(cx, sbi, N)
+    if cx.sym:
+        from symnum import linalg, npatch
+        linalg.use_eigh(eigen_equation=False)
+        S = linalg.givens_orthogonal(N, "T")
+        npatch.tag_inverse(S, S.T.copy())
+    else:
+        c, s_ = cx.real("T.c0", 0.3, 0.9), cx.real("T.s0", 0.3, 0.9)
+        nrm = (c * c + s_ * s_) ** 0.5
+        c, s_ = c / nrm, s_ / nrm
+        S = numpy.array([[c, -s_], [s_, c]])
+        for i in range(N):
+            S[:, i] *= (1.0 if cx.real("T.sg%d" % i) >= 0 else -1.0)
+    cls = TDRedfieldRelaxationTensor if td else RedfieldRelaxationTensor
+    RT = cls(ham, sbi, as_operators=True)
+    RT.transform(S)
+    RT.convert_2_tensor()
+    trace_and_herm(cx, "R", RT._data)
